@@ -356,6 +356,8 @@ def fitsRegs (gp fp ngp nfp : Int) : Bool :=
 
 /-- `struct_in_regs(ty, gp, fp, &ngp, &nfp)`: returns (fits, ngp, nfp) -/
 def structInRegsE (env : Env) (ty : Ty) (gp fp : Int) : Except String (Bool × Int × Int) :=
+  -- A GNU empty struct occupies no register and no stack slot.
+  if ty.size == 0 then .ok (true, 0, 0) else
   match structClsE env ty with
   | .error e => .error e
   | .ok (ngp, nfp) => .ok (fitsRegs gp fp ngp nfp, ngp, nfp)
@@ -477,7 +479,7 @@ def popEightbyte (isFp : Bool) (gp fp : Int) : M (Int × Int) :=
 
 /-- the struct/union arm of the register-loading loop -/
 def popStruct (env : Env) (ty : Ty) (gp fp : Int) : M (Int × Int) :=
-  if ty.size > 16 then pure (gp, fp)
+  if ty.size > 16 || ty.size == 0 then pure (gp, fp)
   else do
     let r ← structInRegs env ty gp fp
     if r.1 then do
@@ -519,6 +521,8 @@ def retBytes (reg1 reg2 : String) (off : Int) : Nat → Nat → List Line
 def copyRetBuffer (env : Env) (var : Var) : M Unit := do
   let ty ← needTy "var->ty" var.ty
   let off := env.off var
+  -- A GNU empty struct is returned in no register.
+  if ty.size == 0 then return ()
   let f1 ← hasFlonum1 env ty
   let (gp, fp) : Nat × Nat ← if f1 then do
       unless ty.size == 4 || 8 ≤ ty.size do fail "assert(ty->size == 4 || 8 <= ty->size)"
@@ -547,6 +551,7 @@ def regBytes (reg1 reg2 : String) (lo : Nat) : Nat → List Line
 
 def copyStructReg (env : Env) : M Unit := do
   let ty ← needTy "current_fn->ty->return_ty" env.retTy
+  if ty.size == 0 then return ()
   emit (ins2 "mov" rax rdi)
   let f1 ← liftE (hasFlonum env.types (env.types.length + 1) ty 0 8 0)
   let (gp, fp) : Nat × Nat ← if f1 then do
@@ -1374,6 +1379,7 @@ def saveParams (env : Env) : List Var → Int → Int → M Unit
       match ty.kind with
       | .struct | .union => do
         unless ty.size ≤ 16 do fail "assert(ty->size <= 16)"
+        if ty.size == 0 then saveParams env rest gp fp else
         let f1 ← liftE (hasFlonum env.types (env.types.length + 1) ty 0 8 0)
         let (gp, fp) ← if f1 then do storeFp fp off (min 8 ty.size); pure (gp, fp + 1)
                        else do storeGp gp off (min 8 ty.size); pure (gp + 1, fp)
